@@ -191,6 +191,87 @@ theorem witness_router_u16_truncation_before_fix :
      | .ok p => (Path.getSeg p 0).isPanic
      | _ => false) = true := by decide
 
+/-! ### mixed sequences: static steps (scope prefixes) and dynamic captures, paths of any length -/
+
+/-- apply a list of routing steps; a refused capture (`ok none`) leaves the path unchanged -/
+def runSteps : Path.P → List Path.StepKind → Outcome Path.P
+  | p, [] => .ok p
+  | p, .static_ n :: ss =>
+    match Path.staticStep p n with
+    | .ok p' => runSteps p' ss
+    | .err e => .err e
+    | .panic s => .panic s
+  | p, .dynamic m :: ss =>
+    match Path.capture p m with
+    | .ok (some p') => runSteps p' ss
+    | .ok none => runSteps p ss
+    | .err e => .err e
+    | .panic s => .panic s
+
+/-- every step is consistent with the state it is applied to: a static pattern consumed bytes
+that exist in the unprocessed tail, and the consumed prefix fits `u16` (automatic when the path
+does; for a longer path: the route table's static prefixes total < 64 KiB); a dynamic step
+carries a regex result that satisfies the regex post-condition -/
+def StepsValid : Path.P → List Path.StepKind → Prop
+  | _, [] => True
+  | p, .static_ n :: ss =>
+    n ≤ p.len - p.skip ∧ p.skip + n ≤ u16Max ∧ ∀ p', Path.staticStep p n = .ok p' → StepsValid p' ss
+  | p, .dynamic m :: ss =>
+    m.Valid p ∧ (∀ p', Path.capture p m = .ok (some p') → StepsValid p' ss) ∧
+      (Path.capture p m = .ok none → StepsValid p ss)
+
+/-- **C19_no_panic_router_mixed_sequence**: for a path of ANY length (also > 65535 bytes) and every
+sequence of static and dynamic steps — in particular a consumed scope prefix followed by dynamic
+resources — no step panics and afterwards every `Path::get` / `iter` slice is in bounds.
+What makes it true is that the guard in `capture_match_info_fn` tests the FULL path length
+(`Path.capture`), not the unprocessed tail: see the witness below. -/
+theorem C19_no_panic_router_mixed_sequence (ss : List Path.StepKind) :
+    ∀ (p : Path.P), Path.Inv2 p → StepsValid p ss →
+      ∃ q, runSteps p ss = .ok q ∧ Path.Inv2 q := by
+  induction ss with
+  | nil => intro p hi _; exact ⟨p, rfl, hi⟩
+  | cons st ss ih =>
+    intro p hi hv
+    cases st with
+    | static_ n =>
+      obtain ⟨hn, hfit, hrest⟩ := hv
+      obtain ⟨p', hp', hi'⟩ := Path.staticStep_inv2 p n hi hn hfit
+      simp only [runSteps, hp']
+      exact ih p' hi' (hrest p' hp')
+    | dynamic m =>
+      obtain ⟨hm, hsome, hnone⟩ := hv
+      rcases Path.capture_inv2 p m hi hm with hc | ⟨p', hc, hi'⟩
+      · simp only [runSteps, hc]; exact ih p hi (hnone hc)
+      · simp only [runSteps, hc]; exact ih p' hi' (hsome p' hc)
+
+theorem C19_no_panic_router_get_any_length (p : Path.P) (i : Nat) (hi : Path.Inv2 p) :
+    NoPanic (Path.getSeg p i) ∧ NoPanic (Path.iterAll p) :=
+  ⟨Path.getSeg_noPanic2 p i hi, Path.iterAll_noPanic2 p hi⟩
+
+theorem C19_router_inv2_init (len : Nat) : Path.Inv2 (Path.P.new len) := Path.inv2_new len
+
+example : StepsValid (Path.P.new 65540) [.static_ 4, .dynamic ⟨[(1, 65536)], 65536⟩] := by
+  refine ⟨by decide, by decide, ?_⟩
+  intro p' hp'
+  have : p' = ⟨65540, 4, []⟩ := by
+    simp [Path.staticStep, Path.P.new, uadd, asU16, u16Max] at hp'; exact hp'.symm
+  subst this
+  refine ⟨⟨by decide, ?_⟩, ?_, fun _ => trivial⟩
+  · intro c hc; simp at hc; subst hc; decide
+  · intro p'' h; simp [Path.capture, u16Max] at h
+
+/-- the guard must test the FULL path (seeded change C19-1): with the guard on the unprocessed
+tail, `/api` consumed and a 65536-byte path, the tail (65532 bytes) passes the guard and
+`self.skip + end` = 4 + 65532 overflows `u16` -/
+theorem witness_router_guard_on_tail_overflows :
+    (Path.captureTailGuard ⟨65536, 4, []⟩ ⟨[(1, 65532)], 65532⟩).isPanic = true := by decide
+
+/-- … whereas the real guard refuses that capture -/
+theorem C19_router_guard_full_path_refuses :
+    (match Path.capture ⟨65536, 4, []⟩ ⟨[(1, 65532)], 65532⟩ with
+     | .ok none => true
+     | _ => false) = true := by decide
+
 /-! ## 4. `Range`: the typed header (`actix-web/src/http/header/range.rs`) and the files path
 (`http-range` + `actix-files/src/named.rs`) -/
 
